@@ -25,9 +25,9 @@ def streams(tier, seed, wd, wide=False):
     import gen_ex
     from props import exlib
     exprobe = exlib.build(wd)
-    cases = gen_ex.buf_cases(rng, 8000 if big else 500, 3, 14) + gen_ex.c06_cases(rng, 6000 if big else 400) + gen_ex.c15_cases(rng, 3000 if big else 200)
+    cases = gen_ex.buf_cases(rng, 8000 if big else 500, 3, 14) + gen_ex.c06_cases(rng, 6000 if big else 400) + gen_ex.c15_cases(rng, 3000 if big else 200) + gen_ex.c04_cases(rng, 4000 if big else 400)
     out.append(exlib.ex_stream(exprobe, "editor", "ex04", cases,
-        "ex scripts over one and several buffers (line commands, :s, :g, e!, buffer switches inside a command line): a per-buffer ghost stack of texts at command boundaries judges every u and redo"))
+        "ex scripts over one and several buffers (line commands, :s, :g, e!, buffer switches inside a command line, command lines that edit and then fail or fail and then edit): a per-buffer ghost stack of texts at command boundaries judges every u and redo"))
     return out
 
 def main(tier, seed, replay):
